@@ -179,6 +179,20 @@ fn subst(t: &T, args: &[T]) -> T {
     }
 }
 
+/// references replaced by raw pointers
+fn strip_refs(t: &T) -> T {
+    match t {
+        T::Ref(m, e) => T::Raw(*m, Box::new(strip_refs(e))),
+        T::Adt(i, a) => T::Adt(*i, a.iter().map(strip_refs).collect()),
+        T::Tuple(a) => T::Tuple(a.iter().map(strip_refs).collect()),
+        T::Array(e, n) => T::Array(Box::new(strip_refs(e)), *n),
+        T::Slice(e) => T::Slice(Box::new(strip_refs(e))),
+        T::Raw(m, e) => T::Raw(*m, Box::new(strip_refs(e))),
+        T::FnPtr(a, r) => T::FnPtr(a.iter().map(strip_refs).collect(), Box::new(strip_refs(r))),
+        _ => t.clone(),
+    }
+}
+
 /// one-sided matching of an impl header against a closed type
 fn match_ty(pat: &T, t: &T, binds: &mut Vec<Option<T>>) -> bool {
     match (pat, t) {
@@ -495,8 +509,14 @@ impl<'a> Gen<'a> {
             5 => T::Raw(self.rng.chance(1, 2), Box::new(self.ty(adts, nparams, depth - 1, true))),
             _ => {
                 let n = self.rng.usize_below(3);
-                // no item parameters inside fn pointers (their types live under the pointer's binder)
-                T::FnPtr((0..n).map(|_| self.ty(adts, 0, depth - 1, false)).collect(), Box::new(self.ty(adts, 0, depth - 1, false)))
+                // no item parameters inside fn pointers (their types live under the pointer's binder),
+                // and no references: a lifetime under a fn pointer is generalized into a lifetime
+                // variable with region constraints, and two derivations with different constraints
+                // make the recursive solver answer Ambiguous ("unless lifetimes make it so")
+                T::FnPtr(
+                    (0..n).map(|_| strip_refs(&self.ty(adts, 0, depth - 1, false))).collect(),
+                    Box::new(strip_refs(&self.ty(adts, 0, depth - 1, false))),
+                )
             }
         }
     }
@@ -663,11 +683,20 @@ fn one_program(ctx: &Ctx, prog: Option<&Prog>, text: &str, goals: &[(usize, Opti
                     out.fail(&format!("{} solver: no solution, but the rules grant {} for this {}", name, TRAITS[*tr].0, ctor), &input, &format!("builtin_{}_{}_wrongly_fails", trn, ctor))
                 }
                 ("ambig", Some(_)) => {
-                    if wide {
-                        wide_agrees = false;
+                    if !wide && wide_agrees {
+                        // the goal exceeds the solver's default size limit and is truncated: the
+                        // documented behaviour of a search cut off at max_size, outside the property
+                        out.count(&format!("dropped_{}_default_size_limit", name));
+                    } else {
+                        if wide {
+                            wide_agrees = false;
+                        }
+                        out.fail(
+                            &format!("{} solver: Ambiguous on a closed goal the rules decide ({} for this {})", name, TRAITS[*tr].0, ctor),
+                            &input,
+                            &format!("builtin_{}_{}_ambiguous", trn, ctor),
+                        )
                     }
-                    let classifier = if !wide && wide_agrees { "builtin_goal_ambiguous_at_size_limit".to_string() } else { format!("builtin_{}_{}_ambiguous", trn, ctor) };
-                    out.fail(&format!("{} solver: Ambiguous on a closed goal the rules decide ({} for this {})", name, TRAITS[*tr].0, ctor), &input, &classifier)
                 }
                 _ => {}
             }
